@@ -32,8 +32,10 @@ def handler(payload):
     out = []
     wd = tempfile.mkdtemp(prefix="c09-", dir=os.getcwd())
     for k, job in enumerate(payload["jobs"]):
-        corpus = os.path.join(wd, "corpus_%d.txt" % k)
-        target = os.path.join(wd, "events_%d.tab.gz" % k)
+        # the same two paths for every job of this process (removed in between): what a call remembers about a path
+        # must not survive it
+        corpus = os.path.join(wd, "corpus.txt")
+        target = os.path.join(wd, "events.tab.gz")
         with open(corpus, "w", encoding="utf-8", newline="") as f:
             for i, l in enumerate(job["lines"]):
                 f.write("".join(map(chr, l)) + eol(job.get("eol_seed"), i))
